@@ -165,6 +165,7 @@ BASELINE = {
     "body_plain": _n("B") + " café " + _n("B") + "\n",
     "body_html": _HTML0,
     "attachments": [],
+    "alt_extra": [],
     "inner": None,
     "line_end": "\r\n",
 }
@@ -195,6 +196,8 @@ def full_spec(spec: dict | None) -> dict:
         _nie("body_html is not rendered by structure %s" % st)
     if st not in ATT_SLOTS and full["attachments"]:
         _nie("attachments are not rendered by structure %s" % st)
+    if st not in ("alternative", "mixed-alt-att") and full["alt_extra"]:
+        _nie("alt_extra is not rendered by structure %s" % st)
     if st != "rfc822-attachment" and full["inner"] is not None:
         _nie("inner is not rendered by structure %s" % st)
     if full["line_end"] not in ("\n", "\r\n"):
@@ -213,16 +216,35 @@ def _attachments(full: dict) -> list:
     if st not in ATT_SLOTS:
         return []
     atts = full["attachments"] or copy.deepcopy(DEFAULT_ATTACHMENTS[:ATT_SLOTS[st]])
+    return _norm_atts(atts)
+
+
+def _norm_atts(atts: list) -> list:
+    """Attachment atoms with their defaults.  Optional keys: "disposition" ("attachment" (default) | "inline" in any letter case |
+    None = no Content-Disposition field) and "name_param" (a name="..." parameter on Content-Type; default None)."""
     out = []
     for a in atts:
         for k in a:
-            if k not in ("filename", "filename_style", "ctype", "data_hex", "cte", "charset"):
+            if k not in ("filename", "filename_style", "ctype", "data_hex", "cte", "charset", "disposition", "name_param"):
                 raise ValueError("mail spec: unknown attachment key %r" % (k,))
         b = {"filename": a.get("filename"), "filename_style": a.get("filename_style", "plain"),
              "ctype": a.get("ctype", "application/octet-stream"), "data_hex": a.get("data_hex", ""),
-             "cte": a.get("cte", "base64"), "charset": a.get("charset")}
+             "cte": a.get("cte", "base64"), "charset": a.get("charset"),
+             "disposition": a.get("disposition", "attachment"), "name_param": a.get("name_param")}
         out.append(b)
     return out
+
+
+def _alt_extra(full: dict) -> list:
+    """Further representations inside the multipart/alternative (after text/plain and text/html), e.g. a text/calendar object."""
+    if full["structure"] not in ("alternative", "mixed-alt-att"):
+        return []
+    return _norm_atts(full["alt_extra"] or [])
+
+
+def _att_name(a: dict):
+    """The file name a reader sees: the filename parameter of Content-Disposition, else the name parameter of Content-Type."""
+    return a["filename"] if a["filename"] is not None else a.get("name_param")
 
 
 # ----------------------------------------------------------------------------------------------------------------------
@@ -544,10 +566,32 @@ def _leaf_att(a: dict, disp: str = "attachment", cid: str | None = None) -> byte
         if not re.match(r"^[A-Za-z0-9._-]+$", a["charset"]):
             _nie("attachment charset %r" % (a["charset"],))
         ct += "; charset=" + a["charset"]
-    head = [ct, "Content-Transfer-Encoding: " + a["cte"]]
+    head = [ct]
+    np = a.get("name_param")
+    if np is not None:
+        _no_ctl(np, "name parameter")
+        if not np or not np.isascii() or _ECRE.search(np):
+            _nie("name parameter %r (plain ASCII only)" % (np,))
+        p = 'name="' + np.replace("\\", "\\\\").replace('"', '\\"') + '"'
+        if len(ct) + 2 + len(p) <= 78:
+            head = [ct + "; " + p]
+        else:
+            head = [ct + ";", " " + p]
+    head.append("Content-Transfer-Encoding: " + a["cte"])
     if cid:
         head.append("Content-ID: <" + cid + ">")
-    head += _disposition_lines(disp, a["filename"], a["filename_style"])
+    if "disposition" in a:
+        disp = a["disposition"]
+    if disp is not None and disp.lower() not in ("attachment", "inline"):
+        _nie("disposition %r" % (disp,))
+    if (disp is None or disp.lower() != "attachment") and a["filename"] is None and np is None and not cid \
+            and a["ctype"].lower() in ("text/plain", "text/html"):
+        _nie("an unnamed text/plain or text/html part without an attachment disposition is a body, not a file")
+    if disp is None:
+        if a["filename"] is not None:
+            _nie("filename parameter without a Content-Disposition field")
+    else:
+        head += _disposition_lines(disp, a["filename"], a["filename_style"])
     data = _att_bytes(a)
     if a["cte"] == "base64":
         body = _b64(data)
@@ -613,14 +657,15 @@ def _render(full: dict, ctx: _Ctx | None = None) -> bytes:
         return _leaf_text("html", full["body_html"], cs, cte)
 
     atts = [_leaf_att(a) for a in _attachments(full)]
+    altx = [_leaf_att(a) for a in _alt_extra(full)]
     if st == "plain":
         entity = plain()
     elif st == "html":
         entity = html()
     elif st == "alternative":
-        entity = _multipart(ctx, "alternative", [plain(), html()], preamble=True)
+        entity = _multipart(ctx, "alternative", [plain(), html()] + altx, preamble=True)
     elif st == "mixed-alt-att":
-        entity = _multipart(ctx, "mixed", [_multipart(ctx, "alternative", [plain(), html()])] + atts, preamble=True)
+        entity = _multipart(ctx, "mixed", [_multipart(ctx, "alternative", [plain(), html()] + altx)] + atts, preamble=True)
     elif st == "mixed-plain-att-att":
         entity = _multipart(ctx, "mixed", [plain()] + atts, preamble=True)
     elif st == "related-html-img":
@@ -691,8 +736,8 @@ def truth(spec: dict | None = None) -> dict:
         if full["line_end"] == "\r\n":
             inner = inner.replace(b"\n", b"\r\n")
         atts.append(("forwarded.eml", "message/rfc822", inner))
-    for a in _attachments(full):
-        atts.append((a["filename"], a["ctype"].lower(), _att_bytes(a)))
+    for a in _alt_extra(full) + _attachments(full):
+        atts.append((_att_name(a), a["ctype"].lower(), _att_bytes(a)))
     inline = [("img1.png", "image/png", INLINE_PNG, INLINE_CID)] if st == "related-html-img" else []
     fuzzy = full["charset"] == "unknown-8bit" and not (bp + bh).isascii()
     return {
